@@ -128,7 +128,7 @@ impl Out {
         let mut line = json!({"ev": "Call", "e": e, "chars": abstract_chars(input), "len": input.chars().count(),
                           "ph": ph.abstract_json(), "st": o.status(), "val": val, "canon": o.canon(),
                           "ticks": t.total(), "tk": {"lex": t.lex, "parse": t.parse, "eval": t.eval, "loops": t.loops}, "claim": claim});
-        if let Some(g) = crate::call::last_tree() { if let Some(sh) = crate::ast::shape_of_debug(&g) { line["ast"] = sh; } }
+        if let Some(g) = crate::call::last_tree() { if let Some(sh) = crate::ast::shape_of_debug(&g) { line["ast"] = crate::ast::flat(&sh); } }
         if let Some(v) = &self.vocab_for_events {
             // the events of the call just made (this thread): the step-level trace of the parser (spec/ParserTrace.tla)
             let pev: Vec<Value> = crate::call::last_events().iter().map(|x| crate::vocab::abstract_event(v, x)).collect();
